@@ -103,8 +103,14 @@ func lrEval(w *Worker, c *GCase, id string) {
 	}
 	accepts, rejects := 0, 0
 	violated := false
+	var refM *lrm.Machine
+	if !t.ConflictFree && t.AllJudged() && id == "C06" {
+		// conflicts, but every one is decided by the declarations: the reference table is the parser the declarations describe
+		refM = refMachine(g, t)
+		w.Count("grammars_judged_against_reference_resolution", 1)
+	}
 	for _, mc := range machines {
-		x := &lrExplorer{g: g, vw: vw, m: mc.m, depth: lrDepth(w, c), bottom: id == "C06"}
+		x := &lrExplorer{g: g, vw: vw, m: mc.m, depth: lrDepth(w, c), bottom: id == "C06", refM: refM}
 		x.visit = func(st *lrStep) {
 			if violated {
 				return
@@ -140,6 +146,10 @@ func lrEval(w *Worker, c *GCase, id string) {
 			case "C06":
 				if st.Res.Out == lrm.Crashed {
 					bad("crash-instead-of-syntax-error", st.Res.Detail)
+					return
+				}
+				if st.HasRef && st.RefOut == lrm.Rejected && (st.Res.Out == lrm.Shifted || st.Res.Out == lrm.Accepted) {
+					bad("error-by-declaration-not-reported", fmt.Sprintf("with the declared precedence and associativity the last token is a syntax error here, but the parser answers %s", st.Res.Out))
 					return
 				}
 				if t.ConflictFree {
